@@ -152,6 +152,15 @@ func (f changeFinder) Walk(from, to *value) (equal bool) {
 			return false
 		}
 
+		// A node that was changed inside is still the node its comments
+		// belong to: the doc comment of a function whose body was
+		// rewritten, the comment after a package clause that was renamed.
+		// The changes that follow have to find them there, or they take
+		// those comments for part of whatever they replace next to it.
+		if to.IsNode && from.Elem.Type() == to.Elem.Type() {
+			to.Comments = from.Comments
+		}
+
 		// Dereferencing a pointer or interface doesn't affect region.
 		if f.Walk(from.Elem, to.Elem) {
 			f.unchanged(from, to)
